@@ -320,6 +320,8 @@ def cmp_frame(a, b, where, mode, out, depth=0, allow_sorted=True, skip_null_colu
         if mode != "lossy" and isinstance(sa.dtype, pd.CategoricalDtype) and isinstance(sb.dtype, pd.CategoricalDtype):
             if list(sa.dtype.categories) != list(sb.dtype.categories) or sa.dtype.ordered != sb.dtype.ordered:
                 out.add("dtype", w, "categories", list(sa.dtype.categories), list(sb.dtype.categories))
+        if _fast_equal(sa, sb, cell_mode):
+            continue
         va, vb = sa.tolist(), sb.tolist()
         n = 0
         for i, (x, y) in enumerate(zip(va, vb)):
@@ -329,6 +331,26 @@ def cmp_frame(a, b, where, mode, out, depth=0, allow_sorted=True, skip_null_colu
                 n += 1
                 if n >= 3:
                     break
+
+
+def _fast_equal(sa, sb, mode):
+    """vectorised pre-check for plain numpy bool/int/float columns of equal dtype (same rules as cmp_scalar);
+    False only means 'look cell by cell'"""
+    da, db = sa.dtype, sb.dtype
+    if not (isinstance(da, np.dtype) and isinstance(db, np.dtype)) or da != db or da.kind not in "fiub":
+        return False
+    x, y = sa.values, sb.values
+    if x.shape != y.shape:
+        return False
+    if not len(x):
+        return True
+    if da.kind != "f":
+        return bool((x == y).all())
+    with np.errstate(all="ignore"):
+        ok = (x == y) | (np.isnan(x) & np.isnan(y))
+        if mode != "exact":
+            ok |= np.isfinite(x) & np.isfinite(y) & (np.abs(x - y) <= JSON_TOL * np.maximum(1.0, np.abs(x)))
+    return bool(ok.all())
 
 
 # ---------------------------------------------------------------------------------------------------------
